@@ -110,6 +110,7 @@ def run_threads(make_coro: Callable[[], Awaitable[Any]], workers: int = 8) -> An
     """Like vtime.run_virtual, on a ThreadLoop whose default executor is a pool owned by this call.  Returns
     (result, loop); raises vtime.Hang.  Every gate is opened and every worker joined before this returns."""
     loop = ThreadLoop()
+    loop.max_steps = 200_000
     pool = ThreadPoolExecutor(max_workers=workers, thread_name_prefix="verif_c06_rt")
     loop.set_default_executor(pool)
     asyncio.set_event_loop(loop)
@@ -120,6 +121,8 @@ def run_threads(make_coro: Callable[[], Awaitable[Any]], workers: int = 8) -> An
         loop.run_forever()
         if not task.done():
             hang_at = loop.time()
+            if loop.runaway:
+                raise vtime.Hang(f"the call was still running after {loop.max_steps} event-loop iterations (virtual time {hang_at:.3f}) while a worker thread stays blocked: it never ends")
             raise vtime.Hang(f"event loop ran dry at virtual time {hang_at:.3f} with the call unfinished (every worker thread still blocked)")
         return task.result(), loop
     finally:
